@@ -60,6 +60,26 @@ theorem reentrant_sequential_outside_window (md : Mode) (s : St) (g g' : Sig) (k
              | 2, h | 3, h => (simp at h)
            | n + 3, h => (simp at h)))
 
+set_option maxHeartbeats 4000000 in
+/-- **Effect of a delivery with one nested delivery, from ANY state**: if the process still runs afterwards, only
+    `stop_` has changed, it is at least 1, and every callback invoked (by either handler) is the registered one with
+    the registered data.  (No hypothesis on the dispositions: a signal that meets the default action ends the process.) -/
+theorem nested_effect (md : Mode) (s : St) (g g' : Sig) (k : Nat) (hh : s.halted = none)
+    (hr : (deliverNested md s g g' k).1.halted = none) :
+    (deliverNested md s g g' k).1 = { s with stop := (deliverNested md s g g' k).1.stop } ∧
+    1 ≤ (deliverNested md s g g' k).1.stop ∧
+    (∀ h d, Obs.cb h d ∈ (deliverNested md s g g' k).2 → h = s.handler ∧ d = s.data ∧ h ≠ 0) := by
+  obtain ⟨sem, w⟩ := md
+  cases s with
+  | mk stop handler data msgPtr msgSize dispInt dispTerm intr alive halted =>
+    simp at hh; subst hh
+    by_cases h0 : handler = 0 <;> cases sem <;> cases g <;> cases g' <;> cases dispInt <;> cases dispTerm <;>
+      (match stop with
+       | 0 | 1 | n + 2 =>
+         match k with
+         | 0 | 1 | 2 | 3 | 4 | 5 | 6 | m + 7 =>
+           simp_all [deliverNested, handlerSteps, hRun, hStep, entryState, deliver, St.disp, St.setDisp])
+
 /-- a schedule without nested signals: `traceN` (what the driver prints) is `trace` -/
 theorem traceN_plain (md : Mode) (s : St) (evs : List EvN) (hp : ∀ e ∈ evs, ∀ sp, e = .sig sp → sp.nested = none) :
     (traceN md s evs).map (fun t => (t.1.plain, t.2)) = trace md s (evs.map EvN.plain) := by
